@@ -530,6 +530,14 @@ func (vc *VC) strConst(s string) *Term {
 func (vc *VC) needStr() {
 	vc.declareFun("gstr.len", []*Sort{SInt}, vc.idxSort())
 	vc.declareFun("gstr.at", []*Sort{SInt, vc.idxSort()}, vc.sortOf(types.Typ[types.Uint8]))
+	if !vc.isBV() && !vc.declSeen["gstr!range"] {
+		vc.declSeen["gstr!range"] = true
+		s, k := Atom("s!sr", SInt), Atom("k!sr", SInt)
+		at := App("gstr.at", SInt, s, k)
+		vc.facts = append(vc.facts, Forall([]*Term{s, k}, And(App("<=", SBool, IntLit64(0), at), App("<=", SBool, at, IntLit64(255))), []*Term{at}))
+		ln := App("gstr.len", SInt, s)
+		vc.facts = append(vc.facts, Forall([]*Term{s}, App("<=", SBool, IntLit64(0), ln), []*Term{ln}))
+	}
 }
 func (vc *VC) strLen(s *Term) *Term {
 	vc.needStr()
@@ -845,7 +853,11 @@ func (fr *frame) execInstr(st *State, in ssa.Instruction) {
 		if at, ok := in.X.Type().Underlying().(*types.Array); ok {
 			vc.oblige("safety.index", st, And(vc.iCmp(">=", i, vc.idx(0), true), vc.iCmp("<", i, vc.idx(at.Len()), true)), in.Pos(), "array index out of range")
 			fr.setT(in, Select(x, i))
+		} else if isString(in.X.Type()) {
+			vc.oblige("safety.index", st, And(vc.iCmp(">=", i, vc.idx(0), true), vc.iCmp("<", i, vc.strLen(x), true)), in.Pos(), "string index out of range")
+			fr.setT(in, vc.strAt(x, i))
 		} else {
+			vc.note("Index on unsupported operand type " + in.X.Type().String())
 			fr.setT(in, vc.fresh("index", vc.sortOf(in.Type())))
 		}
 	case *ssa.Phi:
@@ -891,6 +903,10 @@ func (fr *frame) execInstr(st *State, in ssa.Instruction) {
 		fr.execLookup(st, in)
 	case *ssa.Range:
 		fr.vals[in] = &Val{T: fr.term(st, in.X), Go: in.X.Type()}
+		if isString(in.X.Type()) {
+			key := fr.iterKey(in)
+			st.heap[key] = vc.idx(0)
+		}
 	case *ssa.Next:
 		fr.execNext(st, in)
 	case *ssa.MakeClosure:
@@ -1530,12 +1546,7 @@ func (fr *frame) execSlice(st *State, in *ssa.Slice) {
 		lo := get(in.Low, z)
 		hi := get(in.High, vc.strLen(s))
 		vc.oblige("safety.slice", st, And(vc.iCmp("<=", z, lo, true), vc.iCmp("<=", lo, hi, true), vc.iCmp("<=", hi, vc.strLen(s), true)), in.Pos(), "string slice bounds out of range")
-		r := vc.fresh("substr", SInt)
-		k := Atom("k!ss", vc.idxSort())
-		vc.assume(st.guard, And(App(">=", SBool, r, IntLit64(0)), Eq(vc.strLen(r), vc.iSub(hi, lo)),
-			Forall([]*Term{k}, Implies(And(vc.iCmp(">=", k, z, true), vc.iCmp("<", k, vc.iSub(hi, lo), true)),
-				Eq(vc.strAt(r, k), vc.strAt(s, vc.iAdd(lo, k)))), []*Term{vc.strAt(r, k)})))
-		fr.setT(in, r)
+		fr.setT(in, vc.substr(st, s, lo, hi))
 	case *types.Pointer:
 		at := xt.Elem().Underlying().(*types.Array)
 		n := vc.idx(at.Len())
@@ -1585,18 +1596,25 @@ func (fr *frame) execNext(st *State, in *ssa.Next) {
 	it := fr.val(st, in.Iter)
 	ok := vc.fresh("next!ok", SBool)
 	if in.IsString {
+		// faithful abstraction of UTF-8 iteration: the hidden position advances by 1 for an ASCII byte (the rune is
+		// that byte) and by 1..4 otherwise (the rune is some value >= 0x80); iteration ends when the position reaches len
 		s := it.T
-		k := vc.fresh("next!k", vc.idxSort())
+		key := fr.iterKey(in.Iter)
+		pos := vc.heapGet(st, key)
+		okT := vc.define(fr.regName(in)+"!ok", vc.iCmp("<", pos, vc.strLen(s), true))
 		r := vc.fresh("next!r", vc.sortOf(types.Typ[types.Int32]))
-		b := vc.strAt(s, k)
+		w := vc.fresh("next!w", vc.idxSort())
+		b := vc.strAt(s, pos)
 		asc := vc.iCmp("<", b, vc.intConst(big.NewInt(128), types.Typ[types.Uint8]), false)
 		rr := vc.convInt(b, types.Typ[types.Uint8], types.Typ[types.Int32])
-		vc.assume(st.guard, Implies(ok, And(vc.iCmp(">=", k, vc.idx(0), true), vc.iCmp("<", k, vc.strLen(s), true),
-			Implies(asc, Eq(r, rr)),
-			Implies(Not(asc), And(vc.iCmp(">=", r, vc.intConst(big.NewInt(128), types.Typ[types.Int32]), true), vc.iCmp("<=", r, vc.intConst(big.NewInt(0x10FFFF), types.Typ[types.Int32]), true))))))
-		vc.assume(st.guard, Implies(Eq(vc.strLen(s), vc.idx(0)), Not(ok)))
-		vc.assumed["range over string modelled as an arbitrary in-range position per iteration (order and termination not modelled)"] = true
-		fr.vals[in] = &Val{Tuple: []*Val{{T: ok, Go: types.Typ[types.Bool]}, {T: k, Go: types.Typ[types.Int]}, {T: r, Go: types.Typ[types.Int32]}}}
+		vc.assume(st.guard, And(vc.iCmp(">=", pos, vc.idx(0), true), vc.iCmp("<=", pos, vc.strLen(s), true)))
+		vc.assume(st.guard, Implies(okT, And(
+			Implies(asc, And(Eq(r, rr), Eq(w, vc.idx(1)))),
+			Implies(Not(asc), And(vc.iCmp(">=", r, vc.intConst(big.NewInt(128), types.Typ[types.Int32]), true), vc.iCmp("<=", r, vc.intConst(big.NewInt(0x10FFFF), types.Typ[types.Int32]), true),
+				vc.iCmp(">=", w, vc.idx(1), true), vc.iCmp("<=", w, vc.idx(4), true), vc.iCmp("<=", vc.iAdd(pos, w), vc.strLen(s), true))))))
+		st.heap[key] = vc.define("itpos", Ite(okT, vc.iAdd(pos, w), pos))
+		vc.assumed["range over string: UTF-8 decoding abstracted (ASCII bytes exact, other runes arbitrary >= 0x80 with width 1..4)"] = true
+		fr.vals[in] = &Val{Tuple: []*Val{{T: okT, Go: types.Typ[types.Bool]}, {T: pos, Go: types.Typ[types.Int]}, {T: r, Go: types.Typ[types.Int32]}}}
 		return
 	}
 	mt, _ := it.Go.Underlying().(*types.Map)
@@ -1632,4 +1650,32 @@ func (vc *VC) lowMask(st *State, w, s *Term) *Term {
 	all := IntLit(new(big.Int).Sub(pow2(int(wv.Int64())), big.NewInt(1)))
 	vc.constBits(new(big.Int).Sub(pow2(int(wv.Int64())), big.NewInt(1)), int(wv.Int64()))
 	return Ite(App("<", SBool, s, w), App("lowmask", SInt, s), all)
+}
+
+// substr: the substring s[lo:hi] as a term (strings are canonical ids, so the same arguments give the same string)
+func (vc *VC) substr(st *State, s, lo, hi *Term) *Term {
+	vc.needStr()
+	f := vc.declareFun("gstr.sub", []*Sort{SInt, vc.idxSort(), vc.idxSort()}, SInt)
+	r := App(f, SInt, s, lo, hi)
+	key := "substr:" + r.String()
+	if vc.declSeen[key] || mentionsBound(r) {
+		return r
+	}
+	vc.declSeen[key] = true
+	z := vc.idx(0)
+	k := Atom("k!ss", vc.idxSort())
+	n := vc.iSub(hi, lo)
+	inRange := And(vc.iCmp("<=", z, lo, true), vc.iCmp("<=", lo, hi, true), vc.iCmp("<=", hi, vc.strLen(s), true))
+	vc.facts = append(vc.facts, Implies(inRange, And(App(">=", SBool, r, IntLit64(0)), Eq(vc.strLen(r), n),
+		Forall([]*Term{k}, Implies(And(vc.iCmp(">=", k, z, true), vc.iCmp("<", k, n, true)),
+			Eq(vc.strAt(r, k), vc.strAt(s, vc.iAdd(lo, k)))), []*Term{vc.strAt(r, k)}))))
+	return r
+}
+
+// iterKey names the hidden position of a string range iterator (kept as a heap component so that it is
+// merged at joins and havocked at loop heads like any other state).
+func (fr *frame) iterKey(v ssa.Value) string {
+	key := "IT!" + fr.inst + shortFuncName(fr.fn) + "!" + v.Name()
+	fr.vc.heapSorts[key] = fr.vc.idxSort()
+	return key
 }
